@@ -345,6 +345,14 @@ CASES["regress/KF-C19-2.json"] = upload_case("response",
     [{"query": "mutation Up0($in: FileInput!) { f0: uploadIn(input: $in) f1: attachIn(input: $in) }", "variables": {"in": {"file": None, "name": "n"}}, "operationName": "Up0"}],
     [{"name": "a.txt", "data_b64": _B64, "paths": ["variables.in.file"]}])
 
+_CW = {"services": [{"url": "http://svc-0.test/graphql", "sdl": "type Query {\n  counter: Int\n}\n"},
+                    {"url": "http://svc-1.test/graphql", "sdl": "type Query {\n  ping1: String\n}\ntype Mutation {\n  counter: Int\n}\n"}],
+       "union_sdl": "type Query {\n  counter: Int\n  ping1: String\n}\ntype Mutation {\n  counter: Int\n}\n",
+       "store": {"entities": {}, "roots": {"Query.counter": 1, "Mutation.counter": 2, "Query.ping1": "p"}}}
+CASES["regress/KF-C14-1.json"] = {"property": "C14", "signature": "differs", "case": {"world": _CW, "ttl_ns": 3600000000000,
+    "pool": [{"query": "mutation { counter }"}, {"query": "query { counter }"}],
+    "history": [{"kind": "request", "ops": [0]}, {"kind": "request", "ops": [1]}, {"kind": "request", "ops": [0]}]}}
+
 if __name__ == "__main__":
     import sys
     sys.path.insert(0, os.path.dirname(os.path.abspath(__file__)))
